@@ -17,6 +17,7 @@
 //	verifauto.Yield("auto:<pkg>.<func>:<line>:<op>"); <stmt>   before a statement that
 //	        calls sync.Mutex/RWMutex.Lock/RLock, sync.Once.Do, a sync.Map method or
 //	        anything in sync/atomic
+//	<stmt>; verifauto.Yield("auto:…:after")  and behind it (unlocks, atomics, sync.Map, Once.Do)
 //	<Lock stmt>; verifauto.NoYield(1)       the simulator must not switch tasks while a real
 //	verifauto.NoYield(-1); <Unlock stmt>    lock is held (the next task could block on it
 //	defer x.Unlock(); defer verifauto.NoYield(-1)   while holding the turn)
@@ -471,9 +472,20 @@ func (in *instr) walk() {
 				in.res.Sites = append(in.res.Sites, site+":loop")
 			}
 		}
+		// after: a second scheduling point right behind the operation. A task that is
+		// switched out there resumes with plain accesses, without first synchronising
+		// with what the others did meanwhile — which is what lets the race detector
+		// see an unordered pair (in front of an operation only, every resumed task
+		// would start by acquiring).
+		after := func(off int, how string) {
+			in.add(off, fmt.Sprintf(how, site+":after"))
+			in.res.Sites = append(in.res.Sites, site+":after")
+		}
 		switch d := direct.(type) {
 		case *ast.DeferStmt:
 			if kind == "unlock" {
+				// deferred calls run last-in first-out: NoYield(-1), the unlock, the yield
+				after(in.offset(d.Pos()), "defer verifauto.Yield(%q); ")
 				in.add(in.offset(d.End()), "; defer verifauto.NoYield(-1)")
 			}
 			return true // other deferred operations run at return; no statement to put a yield in front of
@@ -482,7 +494,23 @@ func (in *instr) walk() {
 		}
 		switch kind {
 		case "yield":
+			first := !in.seen[stmt]
 			yield()
+			if first {
+				switch x := stmt.(type) {
+				case *ast.ExprStmt, *ast.AssignStmt, *ast.IncDecStmt, *ast.DeclStmt:
+					after(in.offset(stmt.End()), "; verifauto.Yield(%q)")
+				case *ast.IfStmt:
+					if loop == nil {
+						after(in.offset(x.Body.Lbrace)+1, " verifauto.Yield(%q); ")
+						if eb, ok := x.Else.(*ast.BlockStmt); ok {
+							in.add(in.offset(eb.Lbrace)+1, fmt.Sprintf(" verifauto.Yield(%q); ", site+":after"))
+						} else if x.Else == nil {
+							in.add(in.offset(x.End()), fmt.Sprintf("; verifauto.Yield(%q)", site+":after"))
+						}
+					}
+				}
+			}
 		case "lock":
 			if direct == nil {
 				in.res.Warnings = append(in.res.Warnings, where+": "+op+" inside a larger statement: not bracketed")
@@ -497,6 +525,7 @@ func (in *instr) walk() {
 				return true
 			}
 			in.add(in.offset(direct.Pos()), "verifauto.NoYield(-1); ")
+			after(in.offset(direct.End()), "; verifauto.Yield(%q)")
 		case "once":
 			if direct == nil {
 				in.res.Warnings = append(in.res.Warnings, where+": "+op+" inside a larger statement: not bracketed")
@@ -505,6 +534,7 @@ func (in *instr) walk() {
 			yield()
 			in.add(in.offset(direct.Pos()), "verifauto.NoYield(1); ")
 			in.add(in.offset(direct.End()), "; verifauto.NoYield(-1)")
+			after(in.offset(direct.End()), "; verifauto.Yield(%q)")
 			in.res.Brackets++
 		}
 		return true
